@@ -21,7 +21,10 @@ def main():
     os.makedirs(os.path.dirname(dst), exist_ok=True)
     # the demo file named in the placement (first demo.* by default)
     shutil.copy(demos[0], dst)
+    # some demo commands copy the demo from the MUTANTn directory themselves
+    shutil.copytree(src, os.path.join(wt, os.path.basename(src.rstrip("/"))), dirs_exist_ok=True)
     cmd = meta["demo_command"].replace(os.path.dirname(os.path.dirname(src.rstrip("/"))) if False else "/tmp/mut_" + meta["property"], wt)
+    cmd = cmd.replace("<repo root>", wt)
     cwd = wt
     res = {"demo_command": cmd}
     rc0, out0 = sh(cmd, cwd=cwd)
